@@ -87,8 +87,8 @@ var table = []routeDef{
 	{method: "GET", pattern: "/star*", hid: 16, kind: "treestatic"},
 	// behind recovery + basicauth: the handler runs only with valid credentials; a panic in it is recovered inside the chain
 	{method: "GET", pattern: "/ba/:id", hid: 40, kind: "param", chain: "auth"},
-	// a catch-all next to a parameter branch below the same prefix: the tree always descends into the parameter branch
-	// (static > param > wildcard, no backtracking), so everything but /f/<id>/meta is a miss
+	// a catch-all next to a parameter branch below the same prefix: the tree tries the parameter branch first and falls
+	// back to the catch-all when that branch does not lead to a route (backtracking, since /repo e8ff29c)
 	{method: "GET", pattern: "/f/*", hid: 30, kind: "wild"},
 	{method: "GET", pattern: "/f/:id/meta", hid: 31, kind: "param"},
 	{method: "GET", pattern: "/f/:id/rev/:rev/diff", hid: 32, kind: "param"},
@@ -132,9 +132,10 @@ func segs(s string) []string {
 type kv struct{ K, V string }
 
 // matchTable: reference matcher for this table; returns the route and the parameters in pattern order.
-// Mirrors the engines where they differ on this table: the tree prefers a static child and does not
-// backtrack (so /m/s/… never reaches the second /m route in tree mode), the compiled matcher tries
-// candidates by specificity and falls through on a failed constraint.
+// The tree lookup backtracks (since /repo e8ff29c): at every node the static child is tried first, then the parameter
+// child, then the catch-all, and an alternative that does not lead to a route whose constraints accept the captured
+// values is abandoned — the answer is the first fully matching, constraint-satisfying route in that order. The
+// compiled matcher tries its candidates by specificity and falls through on a failed constraint.
 func matchTable(c Cfg, method, path, ver string) (routeDef, []kv, bool) {
 	ps := segs(path)
 	if path == "" || strings.Contains(path, "//") || (len(path) > 1 && strings.HasSuffix(path, "/")) {
@@ -145,6 +146,7 @@ func matchTable(c Cfg, method, path, ver string) (routeDef, []kv, bool) {
 		ps    []kv
 		score int
 		ok    bool
+		kinds []int // per segment: 2 static, 1 parameter, 0 catch-all (the order the tree tries its children)
 	}
 	var cands []cand
 	for _, d := range table {
@@ -155,6 +157,7 @@ func matchTable(c Cfg, method, path, ver string) (routeDef, []kv, bool) {
 		structural, ok := true, true
 		score := 0
 		var params []kv
+		var kinds []int
 		for i, r := range rs {
 			if r == "*" {
 				if i >= len(ps) {
@@ -162,6 +165,7 @@ func matchTable(c Cfg, method, path, ver string) (routeDef, []kv, bool) {
 				} else {
 					params = append(params, kv{"filepath", strings.Join(ps[i:], "/")})
 				}
+				kinds = append(kinds, 0)
 				break
 			}
 			if i >= len(ps) {
@@ -174,8 +178,10 @@ func matchTable(c Cfg, method, path, ver string) (routeDef, []kv, bool) {
 					ok = false
 				}
 				score = score * 3
+				kinds = append(kinds, 1)
 			} else if r == ps[i] {
 				score = score*3 + 2
+				kinds = append(kinds, 2)
 			} else {
 				structural = false
 				break
@@ -185,17 +191,7 @@ func matchTable(c Cfg, method, path, ver string) (routeDef, []kv, bool) {
 		if !structural || (!wild && len(rs) != len(ps)) || (wild && len(ps) < len(rs)) {
 			continue
 		}
-		cands = append(cands, cand{d, params, score, ok})
-	}
-	if ver == "" && strings.HasPrefix(path, "/f/") {
-		// the parameter sibling shadows the catch-all: only the parameter routes below /f are reachable
-		var keep []cand
-		for _, cd := range cands {
-			if cd.d.kind != "wild" {
-				keep = append(keep, cd)
-			}
-		}
-		cands = keep
+		cands = append(cands, cand{d, params, score, ok, kinds})
 	}
 	if len(cands) == 0 {
 		return routeDef{}, nil, false
@@ -208,9 +204,21 @@ func matchTable(c Cfg, method, path, ver string) (routeDef, []kv, bool) {
 			}
 		}
 	}
-	// tree: the structurally best candidate decides; a failed constraint is a miss
-	if cands[0].ok {
-		return cands[0].d, cands[0].ps, true
+	// tree: depth-first with backtracking — the first route, in child order at the first differing segment, that
+	// matches and whose constraints hold
+	sort.SliceStable(cands, func(i, j int) bool {
+		a, b := cands[i].kinds, cands[j].kinds
+		for k := 0; k < len(a) && k < len(b); k++ {
+			if a[k] != b[k] {
+				return a[k] > b[k]
+			}
+		}
+		return len(a) > len(b)
+	})
+	for _, cd := range cands {
+		if cd.ok {
+			return cd.d, cd.ps, true
+		}
 	}
 	return routeDef{}, nil, false
 }
